@@ -12,7 +12,7 @@ export PYTHONPATH="$wt"
 git apply "$seed/patch.diff" || { echo "APPLY FAILED"; exit 2; }
 /venv/bin/python "$seed/demo.py" >/tmp/cs_patched.txt 2>&1; patched_rc=$?
 /venv/bin/python -c "import spatialpandas" ; imp_rc=$?
-/venv/bin/python -m pytest -q -p no:cacheprovider --timeout=900 --ignore=_seed --ignore=_seed_r1 --junitxml=/tmp/cs_junit.xml >/dev/null 2>&1
+/venv/bin/python -m pytest -q -p no:cacheprovider --timeout=900 --ignore=_seed --ignore=_seed_r1 --ignore=_seed_r2 --junitxml=/tmp/cs_junit.xml >/dev/null 2>&1
 reg=$(/venv/bin/python - <<'PY'
 import json, xml.etree.ElementTree as ET
 base=json.load(open('/root/.vp/BASELINE.json'))
